@@ -42,9 +42,10 @@ backend: sat
 
 #define TYPE_UNIT(FN, T, SZ) \
     static spif_classname_t FN(T self) \
-    __CPROVER_requires(__CPROVER_is_fresh(self, SZ)) \
+    __CPROVER_requires(__CPROVER_is_fresh(self, SZ) && __CPROVER_is_fresh(SPIF_OBJ(self)->cls, sizeof(SPIF_CONST_TYPE(class)))) \
     __CPROVER_assigns() \
-    __CPROVER_ensures(__CPROVER_return_value == (spif_classname_t) SPIF_OBJ_CLASS(self)) \
+    /* type() names the object's class: the class's name string (SPIF_OBJ_CLASSNAME as documented; lead, after fix 31dfb50) */ \
+    __CPROVER_ensures(__CPROVER_return_value == SPIF_OBJ_CLASS(self)->classname) \
     ; \
     void harness(void) { T self; FN(self); VERIF_CANARY(); }
 
